@@ -4,7 +4,8 @@ ClsAll == {"EOF", "EOFstd", "ComplexEOF", "HilbertEOF", "ExtendedEOF", "SparsePC
            "MCA", "CPCCA", "CCA", "CPCCARotator", "multiCCA", "HilbertMCA"}
 ClsQ == {"EOF", "EOFstd", "ComplexEOF", "HilbertEOF", "ExtendedEOF", "POP", "OPA", "EOFRotator", "EOFBootstrapper", "MCA", "CPCCA", "CPCCARotator", "multiCCA"}
 RelAll == {"transpose", "permute_features", "permute_samples", "split_vars", "split_list", "shuffle_list_samples",
-           "transpose2d", "list_swap_sample_dims"}
+           "transpose2d", "list_swap_sample_dims", "two_sample_dims_permuted"}
+OptAll == {"plain", "weighted"}
 NmAll == {"default", "sf", "xy"}
 NmQ == {"default", "sf"}
 Emit == phase = "done" => PrintT(<<"@@", ToJson([cfg |-> cfg, pred |-> pred])>>)
